@@ -215,6 +215,19 @@ impl WalManager {
 
     pub(crate) fn append_op(&mut self, op_data: &[u8]) -> Result<WalAppendInfo, WalError> {
         let version = self.allocate_next_op_version();
+        let result = self.append_op_with_version(version, op_data);
+        if result.is_err() {
+            // nothing was logged: the version is still free
+            self.next_op_version = version;
+        }
+        result
+    }
+
+    fn append_op_with_version(
+        &mut self,
+        version: NonZeroU64,
+        op_data: &[u8],
+    ) -> Result<WalAppendInfo, WalError> {
         let target_segment_id = self.segment_id_for_op_version(version.get());
 
         // check if we need to roll over to a new segment file.
